@@ -36,11 +36,12 @@ ASSUMPTIONS = [
     "suggestion functions never return sentinels or '#' tokens",
 ]
 BOUNDS = {
-    "quick": "245 line shapes (12 keyword configurations x 5 spacing styles x 4 comment styles + 5 blank/comment-only); 16,530 texts: all single "
-    "lines x 3 EOLs, all ordered pairs of a 63-line subset x 3 EOL patterns, all 12^3 keyword-configuration triples x 2 EOL patterns, "
-    "blank-in-the-middle triples; 4 suggestion functions; with_keywords x 3 keyword tuples per line; build over <=2 entries (1,807)",
-    "thorough": "305 line shapes; 534,230 texts: all ordered pairs of the 305 shapes x 3 EOL patterns (incl. lone CR), all triples of the "
-    "63-line subset; 5 suggestion functions; build over <=3 entries (5,903)",
+    "quick": "366 line shapes (12 keyword configurations x 5 spacing styles x 6 comment styles incl. comments followed by blanks/tab, + 6 "
+    "blank/comment-only); 21,861 texts: all single lines x 3 EOLs, all ordered pairs of a 75-line subset x 3 EOL patterns, all 12^3 "
+    "keyword-configuration triples x 2 EOL patterns, blank-in-the-middle triples; 4 suggestion functions; with_keywords x 3 keyword tuples "
+    "per line; build over <=2 entries (1,807)",
+    "thorough": "456 line shapes; 1,051,395 texts: all ordered pairs of the 456 shapes x 3 EOL patterns (incl. lone CR), all triples of the "
+    "75-line subset; 5 suggestion functions; build over <=3 entries (5,903)",
 }
 
 SENT_ALL, SENT_SAME, SENT_NONE = "*", "^", "-"
@@ -301,8 +302,9 @@ def check_parse(text):
         return msgs
     for n, ((raw, eol), e) in enumerate(zip(rl, ents), start=1):
         hashpos, toks = ref_scan(raw)
-        exp = (n, raw, eol, raw[hashpos:], tuple(t[2] for t in toks[1:]), not toks)
-        got = (e.lineno, e.raw, e.eol, e.comment, e.keywords, e.is_blank)
+        # whether blanks after a comment belong to the stored comment is not decided here (raw keeps them either way)
+        exp = (n, raw, eol, raw[hashpos:].rstrip(WS), tuple(t[2] for t in toks[1:]), not toks)
+        got = (e.lineno, e.raw, e.eol, e.comment.rstrip(WS), e.keywords, e.is_blank)
         if exp != got:
             msgs.append(f"parse of {text!r} line {n}: got (lineno, raw, eol, comment, keywords, blank)={got} expected {exp}")
             break
@@ -334,7 +336,7 @@ def check_with_keywords(text):
                 mid = r.raw[len(pre) : len(r.raw) - len(suf)] if ok else ""
                 if not ok or tuple(mid.split()) != new or (new and mid[0] not in WS):
                     msgs.append(f"with_keywords({new}) on {e.raw!r} gave {r.raw!r}: spec/spacing/comment not preserved")
-            if (r.keywords, r.eol, r.lineno, r.comment, r.pkg) != (new, e.eol, e.lineno, e.comment, e.pkg):
+            if (r.keywords, r.eol, r.lineno, r.comment.rstrip(WS), r.pkg) != (new, e.eol, e.lineno, e.comment.rstrip(WS), e.pkg):
                 msgs.append(f"with_keywords({new}) on {e.raw!r}: entry fields changed unexpectedly: {r}")
             if msgs:
                 return msgs
